@@ -153,10 +153,16 @@ MANIFEST = dict(
     category="proof",
     technique="Lean 4 theorems over an explicit draw stream (all outcomes of every draw) + translator for the generation "
               "constants + (requests, value) correspondence under scripted draws",
-    text="The generator is modelled as a function of an explicit list of RNG answers, each range-checked, so theorems hold "
-         "for every outcome of every draw including both ends; proved per-type soundness lemmas live in Props/C01.lean "
-         "(see level note for which are proved); the model is tied to the code by comparing the sequence of draw requests and "
-         "the generated value under 6 draw policies plus single-position extremes, with constants regenerated from source; the "
-         "search oracle runs fake under scripted and real RNG then validate on the real code.",
-    note="Partial: hypotheses HSat (K4), GenOK (K2 K3 K5 K11) exclude the recorded findings. Trusted: Lean kernel + standard "
-         "axioms, hand model (sampling tie), codec, CPython RNG contracts, re.search table, executable IEEE rounding.")
+    text="The generator is modelled as a state-passing function of an explicit list of RNG answers, each range-checked, so "
+         "theorems hold for every outcome of every draw including both ends. Props/C01.lean: gen_sound (whatever gen "
+         "returns validates against the schema, every schema, every draw list, under the hereditary satisfiability "
+         "hypothesis GenHyp), genScalar_sound, randomStr_spec, randomFloat_in_bounds; Props/C01Total.lean: gen_total / "
+         "genScalar_total / genSeq_total (under GenHyp plus non-empty alphabet, a grid point between float bounds and "
+         "supported regex constructs, gen returns a value for every in-range draw list). Tie: the sequence of draw "
+         "requests and the generated value of model and code are compared under 6 draw policies plus single-position "
+         "extremes, with the generation constants regenerated from the source; search: fake under scripted and real RNG "
+         "then validate on the real code.",
+    note="Partial: GenHyp / totality hypotheses exclude exactly the recorded findings K2 K3 K4 K5 K11 (each with a "
+         "counter-example theorem or witness replay). Trusted: Lean kernel + standard axioms, hand model (sampling tie), "
+         "codec, CPython RNG contracts (answers inside the requested range), re.search table (RxComplete), IEEE rounding "
+         "facts EnvOK / DecOK.")
